@@ -21,7 +21,7 @@ RULE = ('CoAP messages with option sequences over known and unknown option numbe
         'semantic parser; distinct by driver line')
 ASSUMPTIONS = ['options appear with non-decreasing numbers (deltas are non-negative by construction of the wire format)']
 
-DELTAS = [0, 1, 5, 11, 12, 13, 14, 15, 20, 100, 255, 268, 269, 270, 300, 1000, 40000]
+DELTAS = [0, 1, 5, 11, 12, 13, 14, 15, 20, 100, 255, 268, 269, 270, 300, 1000, 40000, 60000, 65535, 65803, 65804]
 LENS = [0, 1, 2, 11, 12, 13, 14, 20, 267, 268, 269, 270, 300, 600]
 
 
@@ -69,6 +69,10 @@ def run(rep, tier, seed):
             opts.append((d, l))
         if i < len(DELTAS) * len(LENS):           # every (delta class, length class) combination at least once
             opts = [(DELTAS[i % len(DELTAS)], LENS[i // len(DELTAS)])] + opts[:1]
+        if i in (7, 8):
+            opts = [(rnd.choice([3, 300]), 65536 if i == 7 else 65804)] + opts[:1]      # the longest values RFC 7252 can encode (> 64 KiB)
+        if i in (9, 10, 11):
+            opts = [(65804, 1), (65804, 0), (rnd.choice([1, 60000]), 2)]                # option numbers beyond 100000
         payload = None if rnd.random() < 0.7 else b''
         pkt, st = P.coap(rnd, opts=opts, payload=payload)
         bits = b2s(pkt)
